@@ -8,6 +8,7 @@ Values cross the protocol as tagged trees (`cps` = array of code points, so lone
   {"t":"list","v":[tree..]} {"t":"dict","v":[[key,tree]..]}  key = {"t":"str","v":cps} | {"t":"other"}
   {"t":"path","v":cps} {"t":"date","v":"iso"} {"t":"time","v":"iso"} {"t":"timetz"} {"t":"set","v":[tree..]}
   {"t":"complex","re":"tok","im":"tok"} {"t":"custom","v":tree} {"t":"unsupported"}
+("own":true, optional, with "ext":true: the caller's default does not chain to eliot's json_default -> `ownView`)
 in : {"op":"dumps","ext":bool,"v":tree}        out: {"t":[cp..],"b":"hex"} | {"err":kind}
 in : {"op":"loads","s":[cp..]}                 out: {"v":jtree (objects as pair lists),"n":jtree (objects as dicts)} | {"none":true}
      jtree: null/bool/int as above, {"t":"num","v":"tok"}, {"t":"str","v":cps}, {"t":"arr","v":[..]}, {"t":"obj","v":[[cps,jtree]..]}
@@ -79,7 +80,9 @@ def handle (j : Json) : Except String Json := do
   match op with
   | "dumps" =>
     let ext ← j.getObjValAs? Bool "ext"
-    let v ← toPy (← j.getObjVal? "v")
+    let own := (j.getObjValAs? Bool "own").toOption.getD false
+    let v0 ← toPy (← j.getObjVal? "v")
+    let v := if own then ownView v0 else v0
     match dumpsText ext v, dumpsBytes ext v with
     | .ok t, .ok b => pure (Json.mkObj [("t", cpsJ t), ("b", hexOf b)])
     | .error e, .error e' => pure (if e = e' then errJ e else Json.mkObj [("bad", "text and bytes differ")])
@@ -92,7 +95,9 @@ def handle (j : Json) : Except String Json := do
   | "file" =>
     let ext ← j.getObjValAs? Bool "ext"
     let mode ← j.getObjValAs? String "mode"
-    let msgs ← (← (← j.getObjVal? "msgs").getArr?).toList.mapM toPy
+    let own := (j.getObjValAs? Bool "own").toOption.getD false
+    let msgs0 ← (← (← j.getObjVal? "msgs").getArr?).toList.mapM toPy
+    let msgs := if own then msgs0.map ownView else msgs0
     let calls := fileCalls (if mode == "text" then .text else .binary) ext msgs
     pure (Json.mkObj [("calls", Json.arr (calls.map fun
       | .write c => Json.arr #["w", cpsJ c]
